@@ -114,6 +114,9 @@ func (e *FnEnc) inlineCall(v ssa.Value, f *ssa.Function, args []Val) {
 		o.Name = "inl." + f.Name() + "." + o.Name
 		o.Func = e.fn.String()
 		o.enc = e
+		for _, a := range o.Alts {
+			a.Func, a.enc = o.Func, e
+		}
 	}
 	e.note("inlined helper without a contract: " + calleeName(f))
 	if len(ch.rets) == 0 {
